@@ -318,6 +318,10 @@ def replay_native(envr, spec, model, texts, clauses, raises, frame, fresh, names
                 'kwargs': {k: concretize.describe(v) for k, v in kwargs.items()}}
     before = set(native_reachable((recv, args, kwargs)))
     result, exc = native_call(fn, kind, recv, args, kwargs)
+    if exc is not None and exc[0] == 'TIMEOUT':
+        # confirm with a long limit on a fresh copy of the pre-state: a loaded machine must not look like a hang
+        recv, args, kwargs = native_copy((old_recv, old_args, old_kwargs))
+        result, exc = native_call(fn, kind, recv, args, kwargs, seconds=30)
     failed = []
     rec = dict(fields)
     rec['old_self'] = old_recv
